@@ -43,6 +43,18 @@ func DeleteRepo(repo string, stores context2.Stores, opts ...DeleteOption) error
 		}
 	}
 
+	// remove what interrupted uploads left behind: file lists without a bundle descriptor are not
+	// reported by ListBundles
+	leftovers, _, err := GetBundleStore(stores).KeysPrefix(context.Background(), "", model.GetArchivePathPrefixToBundles(repo), "", maxMetaFilesToProcess)
+	if err != nil {
+		return fmt.Errorf("cannot list remaining bundle metadata in repo %s: %v", repo, err)
+	}
+	for _, k := range leftovers {
+		if e := GetBundleStore(stores).Delete(context.Background(), k); e != nil {
+			return fmt.Errorf("cannot delete %s in repo %s: %v", k, repo, e)
+		}
+	}
+
 	// remove all labels in one go
 	labels, err := ListLabels(repo, stores)
 	if err != nil {
